@@ -18,7 +18,10 @@ token before publishing a v3 record and the marker token before skipping a retir
 token with the landing sector. Not decided: that reopened contents are one complete recent generation per key.
 """
 DECIDED = ['the record-batch bracket journals every prepared write (shared with C02.order)', "(a) intent-journal brackets (retire_extents and process_write_batch, the latter shared with C02.order)", "(b) write layering / who-may-call",
-           "(c) replay-before-scan, token verification before publication, journalled post-scan retirement, token stamping"]
+           "(c) replay-before-scan, token verification before publication, journalled post-scan retirement, token stamping",
+           'fsync barriers separate intent journal, marker writes and journal clear of a retirement transaction',
+           'decode_slot accepts exactly the images the layout allows (touching extents, extent ending at the device end)',
+           'writer and recovery token folds agree (shared with C10.token)']
 NOT_DECIDED = ["(d) reopened contents are one complete generation per key and len() matches",
                "value-level slot / generation selection in allocation_journal::decode and read_metadata"]
 ASSUMPTIONS = ["process_write_batch's bracket is checked by C02.order and shared"]
